@@ -356,6 +356,10 @@ def guard_rule(chk, db):
         chk.analysis_broken("GUARD: only %d bit-position operations matched the contract table" % n)
 
 
+META_EXTRA = 'PROXY (proxy assignments write through); STRBIT (string constructor maps the rightmost character to bit 0).'
+META = (META[0] + " " + META_EXTRA, META[1])
+
+
 def run(chk, tier):
     db = D.load("checks")
     taint_rule(chk, db)
